@@ -44,7 +44,7 @@ CHECKS.update({
          "window, on 48K and on 128K with every bank at 0xC000; UlaTrace requires the clock after each call to equal RunOps(Emulate(pre).ops)."),
    note="Trusted: TLC, Z80.tla cycle lists (validated separately by C03), the clock accessor hook. Sampling over (instruction, T, placement); exhaustive only for the per-T delay function."),
  "C05": dict(
-   category="model_checking", design_ref="4 (C04/C05)", technique="TLC clock model on real constants + TLC trace validation of frame-crossing steps and free-running programs",
+   category="model_checking", design_ref="4 (C04/C05)", technique="TLC clock model on real constants + TLAPS proof of the conservation step for every frame length + TLC trace validation of frame-crossing steps and free-running programs",
    text=("MC_Ula explores the wait_internal/new_frame clock with arbitrary instruction lengths on the real frame lengths (conservation of T-states, "
          "exactly one INT service per frame for a polling program). On the real emulator: calls started in the first 40 / last 30 T-states (INT accepted "
          "exactly while T < 32, overrun carried across the wrap) and busy/HALT loops over up to hundreds of frames under random FrameCount slicings, "
@@ -263,3 +263,5 @@ _rep("C10", "tape assets that hand out a few bytes per read)", "tape assets that
 
 _rep("C07", "PortsTrace judges both tables port by port.", "PortsTrace judges both tables port by port; histories of arbitrary values written to arbitrary ports with the sound on must leave the border colour and the speaker/MIC level heard at the last value that reached the ULA.")
 _rep("C18", "a repeated R13 write restarts the envelope", "for both chip types (AY, YM) a slow attack ramp is a rising staircase of 32 settled amplitudes and fixed volume v sounds like envelope level 2v+1; a repeated R13 write restarts the envelope")
+
+_rep("C05", "exactly one INT service per frame for a polling program).", "exactly one INT service per frame for a polling program); UlaProofs.tla proves the conservation step of the same Tick definition with TLAPS for every frame length.")
